@@ -6,9 +6,14 @@ package mocrelay
 // connections that have a registry entry, read under the registry's own locks.
 // For the verification harness only (build tag verif).
 func (router *RouterHandler) VerifSubscriptionCount() (subscriptions, connections int) {
-	router.subs.subs.Loop(func(_ string, m *safeMap[string, *subscriber]) {
+	outer := router.subs.subs
+	outer.mu.RLock()
+	defer outer.mu.RUnlock()
+	for _, m := range outer.m {
 		connections++
-		m.Loop(func(_ string, _ *subscriber) { subscriptions++ })
-	})
+		m.mu.RLock()
+		subscriptions += len(m.m)
+		m.mu.RUnlock()
+	}
 	return
 }
